@@ -3182,7 +3182,17 @@ impl PeerConnection {
 
     pub async fn recv(&self) -> Option<PeerConnectionEvent> {
         let mut rx = self.inner.event_rx.lock().await;
-        rx.recv().await
+        // The sender half lives inside the connection itself, so the channel never closes on
+        // its own: end the stream once the connection is finished (after draining what is
+        // already queued) instead of parking the caller forever.
+        let mut state_rx = self.inner.peer_state.subscribe();
+        tokio::select! {
+            biased;
+            ev = rx.recv() => ev,
+            _ = state_rx.wait_for(|s| {
+                matches!(s, PeerConnectionState::Closed | PeerConnectionState::Failed)
+            }) => rx.try_recv().ok(),
+        }
     }
 
     /// Initialize a T.38 fax endpoint for the Image transceiver.
